@@ -426,6 +426,7 @@ func runC20(c *Ctx) {
 		}
 	}
 	c.verdictIf(okWidth && goSites > 0, P, "width", "go=worker only-in-Start bounded", "", "workers are started only by Start, i < maxWorkers", why)
+	runC20Join(c)
 	rz := p.Fn("(*WorkerPool).Resize")
 	if rz != nil && start != nil && stop != nil {
 		good := true
